@@ -132,28 +132,56 @@ def c05_events(ast, compare_original=False, keep=None):
 
 
 def analyze_program(src):
-  """generate_pyi on one program -> (outcome, ast or None, pyi text, error names)."""
+  """generate_pyi on one program -> pyt.analyze record with the inferred AST."""
   loader()
-  r = pyt.analyze(src, want_ast=True)
-  return r
+  return pyt.analyze(src, want_ast=True)
+
+
+def c05_case(ident, origin, ast, compare, pyi=None, want_texts=False):
+  """The main run on `ast` plus the counterfactual runs used for attribution (see
+  stubgen_terms.DEVIATIONS): for the set P of documented deviations whose trigger is present in
+  the AST, one run with all of P neutralised and, if |P| > 1, one run per d in P with P - {d}
+  neutralised.  Counterfactual runs never produce a verdict; TraceC05 uses them to say which
+  deviations a failing main run is explained by."""
+  keep = {}
+  evs = c05_events(ast, compare_original=compare, keep=keep)
+  present = st.deviations_present(ast)
+  variants = []
+  if present:
+    subsets = [list(present)]
+    if len(present) > 1:
+      subsets += [[x for x in present if x != d] for d in present]
+    for sub in subsets:
+      k2 = {}
+      try:
+        v = c05_events(st.neutralise(ast, sub), compare_original=False, keep=k2)
+      except Exception as e:  # pylint: disable=broad-except
+        v = [ev("Print", False, x="neutraliser: " + _err(e))]
+      variants.append({"without": sub, "events": v})
+  t1 = keep.get("t1", "")
+  out = {"id": ident, "origin": origin, "events": evs, "devs": present, "variants": variants,
+         "lines": t1.count("\n") + 1,
+         # io._output_ast: the emitted text is the printer's output plus a newline
+         "emit_eq": True if pyi is None else (t1 + "\n" == pyi),
+         "feats": st.features(ast), "tdigest": tdigest(t1)}
+  if want_texts:
+    out["texts"] = {k: v for k, v in keep.items() if k in ("t1", "t2", "t3")}
+  else:
+    # enough to describe a failure without shipping every text back
+    fp = [e for e in evs if not e["ok"]] or keep.get("t2") != keep.get("t1")
+    if fp:
+      out["texts"] = {k: v[:6000] for k, v in keep.items() if k in ("t1", "t2")}
+  return out
 
 
 def c05_emitted(item):
-  """item = {"id", "src"} -> {"id", "origin": "emitted", "events" | "skip", "emit_eq"}."""
+  """item = {"id", "src"} -> case record (or {"skip": reason})."""
   try:
     r = analyze_program(item["src"])
     if r["outcome"] != "result":
       return {"id": item["id"], "origin": "emitted", "skip": r["outcome"], "events": []}
-    keep = {}
-    evs = c05_events(r["ast"], keep=keep)
-    out = {"id": item["id"], "origin": "emitted", "events": evs, "lines": r["pyi"].count("\n"),
-           # io._output_ast: the emitted text is the printer's output plus a newline
-           "emit_eq": keep.get("t1", "") + "\n" == r["pyi"]}
-    if item.get("keep"):
-      out["texts"] = {k: v for k, v in keep.items() if k in ("t1", "t2", "t3")}
-    else:
-      out["attr"] = attribute_c05(keep)
-    return out
+    return c05_case(item["id"], "emitted", r["ast"], False, pyi=r["pyi"],
+                    want_texts=bool(item.get("keep")))
   except Exception as e:  # pylint: disable=broad-except
     return {"id": item["id"], "origin": "emitted", "skip": "harness:" + _err(e) +
             traceback.format_exc()[-600:], "events": []}
@@ -164,88 +192,10 @@ def c05_generated(item):
   try:
     loader()
     x = st.stub_ast(item["stub"])
-    keep = {}
-    evs = c05_events(x, compare_original=True, keep=keep)
-    out = {"id": item["id"], "origin": "stubgen", "events": evs,
-           "lines": keep.get("t1", "").count("\n") + 1, "emit_eq": True}
-    if item.get("keep"):
-      out["texts"] = {k: v for k, v in keep.items() if k in ("t1", "t2", "t3")}
-    else:
-      out["attr"] = attribute_c05(keep)
-    return out
+    return c05_case(item["id"], "stubgen", x, True, want_texts=bool(item.get("keep")))
   except Exception as e:  # pylint: disable=broad-except
     return {"id": item["id"], "origin": "stubgen", "skip": "harness:" + _err(e) +
             traceback.format_exc()[-600:], "events": []}
-
-
-# ---- attribution of a failing fixed point to a documented root cause (known findings) --------
-import re  # noqa: E402
-
-_LIT = re.compile(r"Literal\[([^\[\]]*)\]")
-
-
-def _collapse_literals(text):
-  """What the documented deviation predicts: inside one Literal[...] list, a member that is ==
-  to an earlier member under Python equality (True == 1, False == 0) disappears."""
-  changed = [False]
-
-  def fix(m):
-    seen, out = [], []
-    for part in [p.strip() for p in m.group(1).split(",")]:
-      val = {"True": True, "False": False}.get(part)
-      if val is None:
-        try:
-          val = int(part)
-        except ValueError:
-          val = part
-      if any(val == s and (type(val) is not str) and (type(s) is not str) for s in seen) or \
-         any(val == s for s in seen if type(val) is str and type(s) is str):
-        changed[0] = True
-        continue
-      seen.append(val)
-      out.append(part)
-    return "Literal[%s]" % ", ".join(out)
-  return _LIT.sub(fix, text), changed[0]
-
-
-def _requalify_aliases(text):
-  """Documented deviation: a module imported under another name (`import enum as en`) and used as
-  `en.X` is re-printed as `_en.X` with an extra `import en as _en`."""
-  lines = text.split("\n")
-  aliases = [m.group(2) for m in (re.match(r"import ([\w.]+) as (\w+)$", l) for l in lines) if m]
-  changed = False
-  for a in aliases:
-    if re.search(r"(?<![\w.])%s\." % re.escape(a), text):
-      changed = True
-      lines = [l if l.startswith(("import ", "from ")) else
-               re.sub(r"(?<![\w.])%s\." % re.escape(a), "_%s." % a, l) for l in lines]
-      lines.append("import %s as _%s" % (a, a))
-  if not changed:
-    return text, False
-  imp = [l for l in lines if l.startswith("import ")]
-  frm = [l for l in lines if l.startswith("from ")]
-  rest = [l for l in lines if not l.startswith(("import ", "from "))]
-  # strip leading blanks of rest
-  while rest and not rest[0]:
-    rest.pop(0)
-  return "\n".join(sorted(imp) + frm + ([""] if rest else []) + rest), True
-
-
-def attribute_c05(keep):
-  """If t2 != t1, say which documented deviations (applied to t1) predict exactly t2."""
-  t1, t2 = keep.get("t1"), keep.get("t2")
-  if t1 is None or t2 is None or t1 == t2:
-    return []
-  a, ca = _collapse_literals(t1)
-  if ca and a == t2:
-    return ["literal-bool-int-collapse"]
-  b, cb = _requalify_aliases(t1)
-  if cb and b == t2:
-    return ["module-alias-requalified"]
-  c, cc = _requalify_aliases(a)
-  if ca and cc and c == t2:
-    return ["literal-bool-int-collapse", "module-alias-requalified"]
-  return ["unexplained"]
 
 
 # ----------------------------------------------------------------------------------------------
@@ -314,10 +264,23 @@ def c12_events(ast, src_path=None):
 
 
 def _c12_pack(ident, origin, ast, src_path=None):
+  feats = st.features(ast)
   r = c12_events(ast, src_path)
+  present = st.c12_deviations_present(ast)
+  variants = []
+  if present:
+    # counterfactual run for attribution (never a verdict): the same AST without the triggers
+    try:
+      v = c12_events(st.c12_neutralise(ast, present), src_path)
+      v = v[0] if isinstance(v, tuple) else v
+    except Exception as e:  # pylint: disable=broad-except
+      v = [ev("Canonical", False, x="neutraliser: " + _err(e))]
+    variants.append({"without": present, "events": v})
   if isinstance(r, tuple):
-    return {"id": ident, "origin": origin, "events": r[0], "bytes": r[1]}
-  return {"id": ident, "origin": origin, "events": r, "bytes": 0}
+    return {"id": ident, "origin": origin, "events": r[0], "bytes": r[1], "feats": feats,
+            "devs": present, "variants": variants}
+  return {"id": ident, "origin": origin, "events": r, "bytes": 0, "feats": feats, "devs": present,
+          "variants": variants}
 
 
 def c12_emitted(item):
@@ -363,7 +326,7 @@ def c12_generated(item):
              traceback.format_exc()[-600:], "events": []}]
 
 
-BUNDLED = None
+FIXTURE_MODULES = ("os", "sys", "types", "abc")     # the fixture typeshed (loaded, not bundled)
 
 
 def bundled_modules():
@@ -389,11 +352,11 @@ def c12_bundled(_):
   boot.boot()
   from pytype import load_pytd
   from pytype.imports import pickle_utils
-  from pytype.pytd import builtin_stubs
+  from pytype.imports import builtin_stubs
   ld = load_pytd.create_loader(pyt.options())
   out = []
   loaded = []
-  for m in bundled_modules():
+  for m in bundled_modules() + list(FIXTURE_MODULES):
     try:
       ast = ld.import_name(m)
       if ast is None:
@@ -442,18 +405,40 @@ def c12_bundled(_):
 # ----------------------------------------------------------------------------------------------
 # C12 equality / hash law on real nodes
 
-def eq_rows(terms):
+def eq_rows(terms, lo=0, hi=None):
   """For the term list exported by PytdEq.tla: build the real node for every term and record, for
-  every ordered pair, a == b, hash(a) == hash(b), len({a, b}) == 1 as strings of 0/1."""
+  term number a in lo+1..hi and every term number j (1-based): eq = the j with node_a == node_j;
+  among those, hne = the j whose hash differs, keep = the j for which a set or a dict holding both
+  nodes keeps two entries."""
   boot.boot()
   nodes = [st.type_node(t) for t in terms]
   rows = []
-  for i, a in enumerate(nodes):
-    eq, hq, sc = [], [], []
-    for b in nodes:
-      e = a == b
-      eq.append("1" if e else "0")
-      hq.append("1" if hash(a) == hash(b) else "0")
-      sc.append("1" if len({a, b}) == 1 else "0")
-    rows.append({"kind": "row", "a": i + 1, "eq": "".join(eq), "hq": "".join(hq), "sc": "".join(sc)})
+  for i in range(lo, len(nodes) if hi is None else hi):
+    a = nodes[i]
+    eq, hne, keep = [], [], []
+    for j, b in enumerate(nodes):
+      if a == b:
+        eq.append(j + 1)
+        if hash(a) != hash(b):
+          hne.append(j + 1)
+        if len({a, b}) != 1 or len({a: 1, b: 2}) != 1:
+          keep.append(j + 1)
+    rows.append({"a": i + 1, "eq": eq, "hne": hne, "keep": keep})
   return rows
+
+
+def c05_work(item):
+  """Pool entry point: one C05 case for an item {"kind": "emitted"|"stubgen", ...}."""
+  return c05_generated(item) if item["kind"] == "stubgen" else c05_emitted(item)
+
+
+def c12_work(item):
+  """Pool entry point: list of C12 run records for an item."""
+  k = item["kind"]
+  if k == "stubgen":
+    return c12_generated(item)
+  if k == "bundled":
+    return c12_bundled(item)
+  if k == "rows":
+    return [{"rows": eq_rows(item["terms"], item["lo"], item["hi"])}]
+  return c12_emitted(item)
